@@ -26,7 +26,7 @@ def pTarget : Wire.P Target := do
   let t ← word
   match t with
   | "render" => pure .render | "validate" => pure .validate | "write" => pure .write
-  | "resolve" => pure .resolve
+  | "resolve" => pure .resolve | "cwrite" => pure .cwrite
   | _ => failure
 
 def pCache : Wire.P CacheArg := do
@@ -57,7 +57,12 @@ def pOp : Wire.P Op := do
   | "mkData" => do let it ← bool; pure (.mkData it)
   | "fromData" => do
     let d ← nat; let fin ← bool; let l ← int; let c ← pCache
-    pure (.fromData d fin l c)
+    let a ← word
+    match a with
+    | "none" => pure (.fromData d fin l c .none)
+    | "own" => pure (.fromData d fin l c .own)
+    | "ancestor" => pure (.fromData d fin l c .ancestor)
+    | _ => failure
   | "next" => do let i ← nat; pure (.next i)
   | "close" => do let i ← nat; pure (.close i)
   | "seek" => do let i ← nat; let n ← nat; pure (.seek i n)
